@@ -38,12 +38,27 @@ func keyOf(t string, x, y float64) posKey {
 }
 
 // refItems folds the specification into distinct items in device space (scale applied).
-func refItems(p *pageSpec) []item {
+//
+// What counts as "the same position" is the pinned contract of the two packages:
+//   - layout (Part 1) is handed fragments and removes nothing: only a fragment with identical text and identical
+//     coordinates is a duplicate;
+//   - text extraction (Part 2) documents one sanctioned removal, text.(*Extractor).deduplicateFragments: same text and
+//     the same position after rounding to a grid of min(1, glyph height/12) units. Fragments that fall on one grid point
+//     are one item with mult copies; everything else — a second layer 0.7pt or 2pt away, the second "l" of "ll" — must
+//     come out of every API.
+func refItems(p *pageSpec, part int) []item {
 	idx := map[posKey]int{}
 	var out []item
 	s := p.scaleF
 	for _, f := range p.frags {
 		k := keyOf(f.text, f.x*s, f.y*s)
+		if part == 2 {
+			grid := f.size * s / 12
+			if grid <= 0 || grid > 1 {
+				grid = 1
+			}
+			k = posKey{f.text, int64(int(f.x*s/grid + 0.5)), int64(int(f.y*s/grid + 0.5))}
+		}
 		if i, ok := idx[k]; ok {
 			out[i].mult++
 			continue
